@@ -59,7 +59,8 @@ def gen_vec_history(rng, big, maxops):
         r = rng.random(); d, a, b = rng.randrange(K), rng.randrange(K), rng.randrange(K)
         if r < 0.2: ops.append("U %d %d" % (d, rng.randrange(D)))
         elif r < 0.26: ops.append("C %d %d" % (d, a))
-        elif r < 0.32: ops.append("A %d %d" % (d, a if rng.random() < 0.8 else d))
+        elif r < 0.30: ops.append("A %d %d" % (d, a if rng.random() < 0.8 else d))
+        elif r < 0.32: ops.append("M %d %d" % (d, a))          # move-assignment from a temporary into a vector built for ANOTHER prime
         elif r < 0.5: ops.append("P %d %d %d" % (d, a, b))
         elif r < 0.62: ops.append("Q %d %d" % (d, a if rng.random() < 0.8 else d))
         elif r < 0.74: ops.append("S %d %d %d" % (d, a, scalar()))
@@ -77,7 +78,7 @@ def dense_vec(line):
     for _ in range(n):
         o = t[i]
         if o == "U": d, x = int(t[i + 1]), int(t[i + 2]); st[d] = norm({x: 1}); i += 3
-        elif o in ("C", "A"): d, a = int(t[i + 1]), int(t[i + 2]); st[d] = dict(st[a]); i += 3
+        elif o in ("C", "A", "M"): d, a = int(t[i + 1]), int(t[i + 2]); st[d] = dict(st[a]); i += 3
         elif o == "P":
             d, a, b = int(t[i + 1]), int(t[i + 2]), int(t[i + 3]); i += 4
             st[d] = norm({k: st[a].get(k, 0) + st[b].get(k, 0) for k in set(st[a]) | set(st[b])})
@@ -143,6 +144,13 @@ def gen_cases(c, tier):
         elif r < 0.5: q = rng.choice([3, 5, 7, 11, 101, 1009, 9973]); p = q * (q + 2)
         else: p = rng.randint(2, 10 ** 9)
         cases.append("%s %d" % ("PB" if rng.random() < 0.3 else "P", p))
+    # multiprecision p whose integer square root has tiny low 64 bits (p = B^2 + c, B a multiple of 2^64) and a small prime factor:
+    # a bound computed through a 64-bit intermediate would stop the trial division before reaching that factor
+    for B in (1 << 64, 1 << 65, 3 << 64, 1 << 96, 5 << 70):
+        for cc in range(1, 80, 2):
+            pp = B * B + cc
+            if any(pp % f == 0 for f in (3, 5, 7, 11, 13, 17, 19, 23, 29, 31)):
+                cases.append("PB %d" % pp)
     nh = 2000 if tier == "quick" else 20000
     for _ in range(nh):
         cases.append(gen_vec_history(rng, rng.random() < 0.3, 40 if tier == "quick" else 100))
@@ -166,7 +174,15 @@ def check(tier, seed):
                 cases += [l.strip() for l in open(os.path.join(corpus, f)) if l.strip() and not l.startswith("#")]
         c.extra["corpus_cases"] = len(cases)
         cases += gen_cases(c, tier)
-        mo = lib.run_model("c18", cases)
+        # is_prime on multiprecision inputs beyond 10^12: the model's trial division (Z.iter over sqrt p steps, no early exit) cannot be
+        # EXECUTED there (theorem C18_is_prime covers them); the implementation's answer is compared with a Miller-Rabin reference instead
+        heavy = {i for i, cs in enumerate(cases) if cs.split()[0] == "PB" and abs(int(cs.split()[1])) > 10 ** 12}
+        light = [i for i in range(len(cases)) if i not in heavy]
+        mo_l = lib.run_model("c18", [cases[i] for i in light])
+        mo = [None] * len(cases)
+        for i, m in zip(light, mo_l): mo[i] = m
+        for i in heavy: mo[i] = "P 1" if is_prime_ref(int(cases[i].split()[1])) else "P 0"
+        c.extra["is_prime_cases_beyond_model_execution"] = len(heavy)
         io = lib.run_lines([exe], cases, timeout=600)
         for i, cs in enumerate(cases):
             t = cs.split(); k = t[0]
